@@ -159,6 +159,9 @@ class C27(Prop):
     def classes(self):
         return CLASSES
 
+    def shrink_candidates(self, req):
+        return c26.shrink_request(req)
+
     def tables(self):
         return {'LokiModel/Generated/C26Tables.lean': c26.gen_tables()}
 
